@@ -170,6 +170,16 @@ func genQuery(r *lib.RNG, height int, hot []int) Q {
 	if len(q.Pre) > 0 && r.Chance(1, 2) {
 		q.ToTag = "pre_confirmed"
 	}
+	if q.Rpc && len(q.F.Addrs) <= 1 {
+		switch r.Intn(4) {
+		case 0:
+			q.Api = "v9"
+		case 1:
+			q.Api = "v8"
+			q.Pre = nil
+		}
+	}
+
 	// keep the number of pages bounded: an unconstrained filter makes every block a candidate
 	if q.F.broad() && q.To-q.From > 60 {
 		if q.Limit > 0 && q.Limit < 6 {
@@ -179,6 +189,14 @@ func genQuery(r *lib.RNG, height int, hot []int) Q {
 		}
 		if q.From < 0 {
 			q.From = 0
+		}
+	}
+	if r.Chance(1, 6) {
+		// a token the server never issued: any block around the range, any skip count
+		tb := clamp(q.From+r.Intn(max(q.To-q.From, 1)+6)-2, 0, head+4)
+		q.Tok = fmt.Sprintf("%d-%d", tb, lib.Pick(r, []int{0, 0, 1, 2, 3, 7}))
+		if q.Tok == "0-0" {
+			q.Tok = ""
 		}
 	}
 	return q
@@ -476,10 +494,25 @@ func runRandom(bases *Base, far *Base, r *lib.RNG, id uint64, res *lib.Result, f
 	} else {
 		w.do(st(1+r.Intn(6), nil))
 	}
+	pruning := prunerInit && r.Chance(1, 2)
+	prunes := 0
 	nOps := f.Scale(40, 60)
 	for i := 0; i < nOps; i++ {
 		h := len(w.Chain)
 		var op Op
+		if pruning && prunes < 2 && h > 4 && r.Chance(1, 12) {
+			// move the retention floor: somewhere behind the head, or just around a window boundary
+			k := h - 1 - r.Intn(min(h-1, 25))
+			if h > W && r.Chance(1, 2) {
+				k = W - 3 + r.Intn(7)
+			}
+			if k > w.Floor && k < h {
+				prunes++
+				hot = append(hot, k)
+				w.do(Op{Kind: "prune", N: k})
+				continue
+			}
+		}
 		switch x := r.Intn(100); {
 		case x < 30:
 			op = st(1, genPlan(r))
@@ -494,7 +527,10 @@ func runRandom(bases *Base, far *Base, r *lib.RNG, id uint64, res *lib.Result, f
 			if d > h {
 				d = h
 			}
-			if d == 0 {
+			if w.Floor > 0 && d > h-1-w.Floor {
+				d = h - 1 - w.Floor // a pruning node is not reorganised below its retention floor
+			}
+			if d <= 0 {
 				continue
 			}
 			if !near && h-d < 1 && !r.Chance(1, 5) {
@@ -509,6 +545,9 @@ func runRandom(bases *Base, far *Base, r *lib.RNG, id uint64, res *lib.Result, f
 				continue
 			}
 			q := genQuery(r, h, hot)
+			if w.Floor > 0 && r.Chance(2, 3) && q.FromTag == "" && q.From < w.Floor {
+				q.From = w.Floor + r.Intn(3) // most queries of a pruning node stay in the retained range
+			}
 			op = Op{Kind: "query", Q: &q}
 		case x < 90:
 			w.do(Op{Kind: "snap"})
@@ -538,6 +577,10 @@ func runRandom(bases *Base, far *Base, r *lib.RNG, id uint64, res *lib.Result, f
 			}
 			res.Hit(fmt.Sprintf("query:chunk=%d", q.Chunk))
 		}
+	}
+	w.checkTokenParsing(r)
+	if pruning {
+		res.Hit("history:pruning-node")
 	}
 	if near {
 		res.Hit("history:random-near-boundary")
